@@ -113,10 +113,16 @@ func streamListen(c *ctx) {
 	r := c.r
 	for n := 0; n < 250*c.scale; n++ {
 		k := r.Intn(9)
+		if n == 4 {
+			k = 300 // one long run: more events than any 8-bit counter holds, a few malformed ones among them
+		}
 		dgs := [][]byte{}
 		cls := []string{}
 		for i := 0; i < k; i++ {
 			cl := eventClasses[r.Intn(len(eventClasses))]
+			if n == 4 && i%8 != 7 {
+				cl = "valid"
+			}
 			dgs = append(dgs, eventDatagram(r, cl))
 			cls = append(cls, cl)
 		}
@@ -242,6 +248,9 @@ func streamDiscover(c *ctx) {
 		serials := []uint32{405419896, 303986753, 201020304, r.U32()}
 		g := genCfg(r, serials[r.Intn(3)])
 		k := r.Intn(8)
+		if n == 0 {
+			k = 300 // one long run: more replies than any 8-bit counter holds
+		}
 		dgs := [][]byte{}
 		cls := []string{}
 		var last []byte
